@@ -85,6 +85,22 @@ var profiles = []profile{
 var blanks = []string{" ", "  ", "\t", " \t "}
 var gcomments = []string{"/*c*/", " /* x (y) [z] */ ", "/**/", "/* a\tb */"}
 
+// ways a file may end after its last token (an automatic semicolon is inserted at EOF too)
+var fileEndings = []string{
+	"\n", "\n", "", " ", " \t ", "/*c*/", " /* c */ /*d*/", " /* c */ \t", "//c", " // c (x)", "\r\n", "\n\n  \n", "\n/* end */", "\n// end",
+	"/* multi\nline */", " /*a*/\n",
+}
+
+func lineEndings(r *vh.Rand, p profile) []string {
+	if !r.Chance(p.comment + 10) {
+		return []string{"\n", "\n", "\n", "\r\n", " \n", "\t\r\n"}
+	}
+	return []string{
+		" // c (x) [y] {z}\n", "/*c*/\n", " /*a*/ /*b*/\n", " /* a */\t/* b */ // c\n", "/* multi\nline */", " /* multi\n line */ /* more */\n",
+		" /*c*/\r\n", "//\n", "/**/\n",
+	}
+}
+
 // relayout returns a new text with the same go/scanner token sequence, or nil.
 func relayout(src []byte, r *vh.Rand, p profile) []byte {
 	toks, ok := goTokens(src, false)
@@ -92,6 +108,9 @@ func relayout(src []byte, r *vh.Rand, p profile) []byte {
 		return nil
 	}
 	var b bytes.Buffer
+	if r.Chance(5) {
+		b.WriteString("\xef\xbb\xbf") // a byte order mark is permitted as the first character
+	}
 	for i, t := range toks {
 		auto := t.tok == gotoken.SEMICOLON && t.lit == "\n"
 		if auto {
@@ -101,11 +120,13 @@ func relayout(src []byte, r *vh.Rand, p profile) []byte {
 				if !r.Chance(p.glue) {
 					b.WriteString(sepAfter(r, p, true))
 				}
+			} else if i+1 == len(toks) {
+				// the semicolon inserted at the end of the file: every way a file may end
+				b.WriteString(r.Pick(fileEndings))
 			} else {
-				if r.Chance(p.comment) {
-					b.WriteString(" // c (x) [y] {z}")
-				}
-				b.WriteString("\n")
+				// the end of a line: comments (also several, also a multi-line one, which itself
+				// ends the line) between the last token and the line break; LF or CRLF
+				b.WriteString(r.Pick(lineEndings(r, p)))
 				if r.Chance(p.blank) {
 					b.WriteString(r.Pick(blanks))
 				}
@@ -114,7 +135,7 @@ func relayout(src []byte, r *vh.Rand, p profile) []byte {
 		}
 		b.WriteString(text(t))
 		if i+1 == len(toks) {
-			b.WriteString("\n")
+			b.WriteString(r.Pick(fileEndings))
 			break
 		}
 		n := toks[i+1]
